@@ -119,7 +119,7 @@ def gen_pars(rng, init, bounds, names):
     """a parameter point hitting interpolation regimes: core, tails, breakpoints and neighbours"""
     out = []
     for x0, (lo, hi), nm in zip(init, bounds, names):
-        alpha_like = lo < 0 and x0 == 0 or (lo <= -3)
+        alpha_like = (lo < 0 and abs(x0) < 0.6 and hi <= 5.5)
         r = rng.random()
         if alpha_like:
             if r < 0.15: v = rng.choice([1.0, -1.0, 0.0])
@@ -127,6 +127,7 @@ def gen_pars(rng, init, bounds, names):
             elif r < 0.6: v = rng.uniform(-1, 1)
             elif r < 0.9: v = rng.choice([-1, 1]) * rng.uniform(1, 3.5)
             else: v = rng.choice([lo, hi])
+            v = min(max(v, lo), hi) if rng.random() < 0.5 else v
         else:
             if r < 0.2: v = x0
             elif r < 0.9: v = rng.uniform(max(lo, 0.3 * (x0 if x0 > 0 else 1)), min(hi, 1.8 * (x0 if x0 > 0 else 1)))
